@@ -24,6 +24,21 @@ type c04Case struct {
 	Shared   bool     `json:"shared_mention"`
 	HasFiles bool     `json:"has_files,omitempty"`
 	Opts     loadOpts `json:"opts"`
+	// TextStyle varies the bytes of the part files without changing their YAML content: 1 CRLF line ends,
+	// 2 a byte order mark, 3 comment lines and an explicit document end marker
+	TextStyle int `json:"text_style,omitempty"`
+}
+
+func textStyled(doc string, style int) string {
+	switch style {
+	case 1:
+		return strings.ReplaceAll(doc, "\n", "\r\n")
+	case 2:
+		return "\xef\xbb\xbf" + doc
+	case 3:
+		return "# generated\n---\n" + strings.Replace(doc, "\n", " # trailing comment\n", 1) + "...\n"
+	}
+	return doc
 }
 
 // sortKeyedLists puts the lists whose entry order the specification does not fix (keyed lists) into a
@@ -183,7 +198,13 @@ func genC04(t *rapid.T) c04Case {
 		// the parts may be written in another YAML style (flow collections, anchors and aliases): same files
 		cs.Parts = append(cs.Parts, emitYAMLStyled(p, nil, styleSeed))
 	}
+	if !cs.AsDocs && rapid.IntRange(0, 3).Draw(t, "textstyled") == 0 {
+		cs.TextStyle = rapid.IntRange(1, 3).Draw(t, "textstyle")
+	}
 	cs.Rules = usedSummary(sp.used)
+	if cs.TextStyle != 0 {
+		cs.Rules = append(cs.Rules, fmt.Sprintf("text-style-%d", cs.TextStyle))
+	}
 	if styleSeed != 0 {
 		cs.Rules = append(cs.Rules, "yaml-style-varied")
 	}
@@ -204,6 +225,9 @@ func c04Load(cs c04Case, docs []string, asDocs bool) (loadResult, string) {
 	} else {
 		for i, d := range docs {
 			n := fmt.Sprintf("compose-%d.yaml", i)
+			if len(docs) > 1 {
+				d = textStyled(d, cs.TextStyle)
+			}
 			lc.Files = append(lc.Files, memFile{Name: n, Content: d})
 			lc.Main = append(lc.Main, n)
 		}
